@@ -171,7 +171,8 @@ def run_history(sb, i, rnd, v, xattrs):
     os.makedirs(os.path.join(root, "tmp"))
     gen_tree(rnd, os.path.join(root, "t"), xattrs)
     if v.get("big"):
-        for name, size in (("big70k.bin", 70001), ("big300k.bin", 300000), ("big1m.bin", (1 << 20) + 4097)):
+        for name, size in (("big70k.bin", 70001), ("big300k.bin", 300000), ("big1m.bin", (1 << 20) + 4097),
+                           ("big2m.bin", (5 << 19) + 13)):
             with open(os.path.join(root, "t", name), "wb") as f:
                 f.write((bytes(rnd.getrandbits(8) for _ in range(4096)) * (size // 4096 + 1))[:size])
             os.utime(os.path.join(root, "t", name), (1_600_000_000, 1_600_000_000))
@@ -300,7 +301,11 @@ def histories(c, tier, seed):
     base = {"split": 0, "kdir": 1, "ktime": 1, "kperm": 1, "kxattr": 0, "sides": "both", "big": 1}
     for comp, ciph, solid, tr in (("--store", "--aes=ctr --pbkdf2=r=1", 1, "file"), ("--store", "--camellia=ctr --pbkdf2=r=1", 1, "pipe"),
                                   ("--store", "pw", 1, "file"), ("--store", "--aes=cbc --pbkdf2=r=1", 0, "stdio-f"),
-                                  ("--zstd=1", "--aes=ctr --pbkdf2=r=1", 0, "file"), ("--deflate=1", "", 1, "pipe")):
+                                  ("--zstd=1", "--aes=ctr --pbkdf2=r=1", 0, "file"), ("--deflate=1", "", 1, "pipe"),
+                                  # the building writer (EntryBuilder over the in-memory FlattenWriter) under a CTR cipher with
+                                  # stored files above 1 and 2 MiB (seeded C02-4: a sink that takes a write only partly)
+                                  ("--store", "--aes=ctr --pbkdf2=r=1", 0, "file"), ("--store", "pw", 0, "pipe"),
+                                  ("--store", "--camellia=ctr --pbkdf2=r=1", 0, "stdio-f")):
         vs.append(dict(base, comp=comp, cipher=ciph, solid=solid, transport=tr))
     if cov:
         c.notes.append("option vectors: %d rows cover %d of %d value pairs of the 10 factors" % (n, cov[0], cov[1]))
